@@ -53,9 +53,11 @@ TOP = frozenset()
 
 class Callee:
     """A resolved call target."""
-    __slots__ = ("kind", "fn", "name", "ambiguous", "how")
+    __slots__ = ("kind", "fn", "name", "ambiguous", "how", "recv")
 
-    def __init__(self, kind, fn=None, name=None, ambiguous=False, how=""):
+    def __init__(self, kind, fn=None, name=None, ambiguous=False, how="",
+                 recv=None):
+        self.recv = recv      # class the receiver was typed as (or None)
         self.kind = kind      # 'repo' | 'external' | 'slot' | 'builtin-method'
         self.fn = fn          # FunctionInfo for 'repo'
         self.name = name      # dotted external name / slot attribute name
@@ -77,6 +79,7 @@ class Program:
         self.vtype = {}    # (fn qual, var) -> set of tags
         self.rtype = {}    # fn qual -> set of tags
         self.gtype = {}    # (module, name) -> set of tags
+        self.etype = {}    # ('f', class, field) | ('v', fn, var) -> element tags
         self._calls = {}   # fn qual -> [(call node, [Callee])]
         self._infer()
 
@@ -139,11 +142,58 @@ class Program:
                                      self.type_of(fi, mod, st.value))
             elif isinstance(st, ast.Call):
                 changed |= self._bind_args(fi, st)
+                f = st.func
+                if isinstance(f, ast.Attribute) and f.attr in (
+                        "append", "insert", "add") and st.args:
+                    for key in self._container_keys(fi, f.value):
+                        changed |= self._add(self.etype, key, self.type_of(
+                            fi, mod, st.args[-1]))
+            elif isinstance(st, (ast.For, ast.AsyncFor)):
+                et = self.elem_type_of(fi, mod, st.iter)
+                if et and isinstance(st.target, ast.Name):
+                    changed |= self._add(self.vtype,
+                                         (fi.qualname, st.target.id), et)
             elif isinstance(st, (ast.FunctionDef,)) and st is not node:
                 pass
         return changed
 
+    def _container_keys(self, fi, e):
+        """etype keys for a container expression (self.f or a local)."""
+        if isinstance(e, ast.Name):
+            return [("v", fi.qualname, e.id)]
+        if isinstance(e, ast.Attribute) and isinstance(e.value, ast.Name):
+            rt = self.vtype.get((fi.qualname, e.value.id), ())
+            return [("f", tag[2:], e.attr) for tag in rt
+                    if tag.startswith("C:")]
+        return []
+
+    def elem_type_of(self, fi, mod, e):
+        out = set()
+        if fi is None:
+            return out
+        if isinstance(e, ast.Name):
+            out |= self.etype.get(("v", fi.qualname, e.id), set())
+        elif isinstance(e, ast.Attribute) and isinstance(e.value, ast.Name):
+            for tag in self.vtype.get((fi.qualname, e.value.id), ()):
+                if tag.startswith("C:"):
+                    cq = tag[2:]
+                    for k in self.model.mro(cq) + self.model.subclasses(cq):
+                        out |= self.etype.get(("f", k, e.attr), set())
+        return out
+
     def _bind(self, fi, tgt, t, value):
+        if isinstance(value, (ast.List, ast.Tuple, ast.Set)) and isinstance(
+                tgt, (ast.Name, ast.Attribute)):
+            for key in self._container_keys(fi, tgt):
+                for el in value.elts:
+                    self._add(self.etype, key,
+                              self.type_of(fi, fi.module, el))
+        if isinstance(tgt, ast.Subscript) and not isinstance(tgt.slice,
+                                                              ast.Slice):
+            ch = False
+            for key in self._container_keys(fi, tgt.value):
+                ch |= self._add(self.etype, key, t)
+            return ch
         if isinstance(tgt, ast.Name):
             return self._add(self.vtype, (fi.qualname, tgt.id), t)
         if isinstance(tgt, ast.Attribute) and isinstance(tgt.value, ast.Name):
@@ -271,6 +321,10 @@ class Program:
         if isinstance(e, ast.Call):
             return self._call_type(fi, mod, e)
         if isinstance(e, ast.Subscript):
+            if not isinstance(e.slice, ast.Slice):
+                et = self.elem_type_of(fi, mod, e.value)
+                if et:
+                    return set(et)
             bt = self.type_of(fi, mod, e.value)
             if bt == {"str"}:
                 return {"str"}
@@ -353,6 +407,10 @@ class Program:
         ft = self.type_of(fi, mod, f) if not isinstance(f, ast.Attribute) \
             else None
         if isinstance(f, ast.Attribute):
+            if f.attr in ("pop", "get", "setdefault"):
+                et = self.elem_type_of(fi, mod, f.value)
+                if et:
+                    return set(et)
             bt = self.type_of(fi, mod, f.value)
             out = set()
             if bt and bt <= {"str"}:
@@ -470,7 +528,7 @@ class Program:
         if r in m.classes:
             init = m.lookup_method(r, "__init__")
             if init is not None:
-                return [Callee("repo", init, how="ctor")]
+                return [Callee("repo", init, how="ctor", recv=r)]
             return [Callee("external", name="builtins.object", how="ctor")]
         modname, _, attr = r.rpartition(".")
         if modname in m.modules:
@@ -484,7 +542,8 @@ class Program:
         for tag in tags:
             if tag.startswith("T:"):
                 init = m.lookup_method(tag[2:], "__init__")
-                out.append(Callee("repo", init, how="ctor") if init else
+                out.append(Callee("repo", init, how="ctor", recv=tag[2:])
+                           if init else
                            Callee("external", name="builtins.object",
                                   how="ctor"))
             elif tag.startswith("F:"):
@@ -494,7 +553,8 @@ class Program:
             elif tag.startswith("C:"):
                 meth = m.lookup_method(tag[2:], "__call__")
                 if meth is not None:
-                    out.append(Callee("repo", meth, how="method"))
+                    out.append(Callee("repo", meth, how="method",
+                                      recv=tag[2:]))
             elif tag.startswith("X:"):
                 out.append(Callee("external", name=tag[2:], how="dotted"))
         if not out:
@@ -512,18 +572,28 @@ class Program:
                 meth = m.lookup_method(cq, name)
                 cands = []
                 if meth is not None:
-                    cands.append(meth)
+                    cands.append((meth, cq))
                 for sub in m.subclasses(cq):
                     sm = m.classes[sub].methods.get(name)
-                    if sm is not None and sm not in cands:
-                        cands.append(sm)
+                    if sm is not None and sm not in [c[0] for c in cands]:
+                        cands.append((sm, sub))
                 if cands:
-                    out += [Callee("repo", c, how="cha") for c in cands]
+                    out += [Callee("repo", c, how="cha", recv=rc)
+                            for c, rc in cands]
                 else:
-                    # instance attribute holding a callable
+                    # instance attribute holding a callable; a class that has
+                    # neither method nor field of that name cannot be the
+                    # receiver's class at run time
                     ftags = set()
+                    has_field = False
                     for k in m.mro(cq):
                         ftags |= self.ftype.get((k, name), set())
+                        c = m.classes.get(k)
+                        if c is not None and (name in c.fields
+                                              or name in c.attrs):
+                            has_field = True
+                    if not has_field:
+                        continue
                     sub = self._from_types(fi, ftags, call, name)
                     for c in sub:
                         if c.kind == "slot":
@@ -545,7 +615,7 @@ class Program:
                 known = True
                 out.append(Callee("external", name=tag.split(":", 1)[1] + "."
                                   + name, how="typed"))
-        if known:
+        if known and out:
             return out
         # unknown receiver: by name over all repository classes
         cands = []
@@ -603,7 +673,8 @@ class Program:
                     for name, meth in c.methods.items():
                         if name.startswith(prefix) and meth.qualname not in seen:
                             seen.add(meth.qualname)
-                            out.append(Callee("repo", meth, how="cha"))
+                            out.append(Callee("repo", meth, how="cha",
+                                              recv=k))
         return out
 
     # ------------------------------------------------------------ call graph
